@@ -82,6 +82,10 @@ pub struct RefTerm {
     pub ckm: bool,
     /// scrollback limit 0: nothing is retained above the view after a call
     pub no_scrollback: bool,
+    /// the real terminal has a scrollback limit > 0: how much it retains is not fixed by the
+    /// statements compared here (C13 / C14 own that), only that what it retains is the most
+    /// recent part, in order and unchanged - the model drops its oldest rows to the same length
+    pub limited: bool,
     /// with `no_scrollback`: the rows the last command scrolled off the primary screen
     pub handed_out: Vec<RRow>,
 }
@@ -101,6 +105,7 @@ enum RowCmp {
     Adopt,
 }
 
+#[derive(Clone)]
 struct Expect {
     col: ColCmp,
     row: RowCmp,
@@ -170,6 +175,7 @@ impl RefTerm {
             visible: true,
             ckm: false,
             no_scrollback: false,
+            limited: false,
             handed_out: vec![],
         }
     }
@@ -1014,6 +1020,16 @@ impl RefTerm {
             return StepRes::Mismatch("fewer lines than rows".into());
         }
         let sb_len = n - self.rows;
+        let mut shifted: Option<Expect> = None;
+        if self.limited && !ex.adopt_content && sb_len < self.scrollback.len() {
+            let k = self.scrollback.len() - sb_len;
+            self.scrollback.drain(..k);
+            let mut e2 = ex.clone();
+            e2.adopt_sb_marks_from = e2.adopt_sb_marks_from.saturating_sub(k);
+            e2.sb_spec = e2.sb_spec.iter().filter_map(|&i| i.checked_sub(k)).collect();
+            shifted = Some(e2);
+        }
+        let ex: &Expect = shifted.as_ref().unwrap_or(ex);
         let (real_sb, real_view) = real.rows.split_at(sb_len);
         if ex.adopt_content {
             self.grid = real_view
